@@ -120,6 +120,7 @@ class PyFat(object):
         self.first_free_cluster = 0
         self.fat_type = self.FAT_TYPE_UNKNOWN
         self.fat = {}
+        self._fat32_reserved_bits = []
         self.initialized = False
         self.encoding = encoding
         self.is_read_only = True
@@ -322,6 +323,7 @@ class PyFat(object):
         fat_entry_size = self.fat_type / 8
         total_entries = int(fat_size // fat_entry_size)
         self.fat = [None] * total_entries
+        self._fat32_reserved_bits = [0] * total_entries
 
         curr = 0
         cluster = 0
@@ -355,7 +357,10 @@ class PyFat(object):
                                                   fats[0][int(curr):
                                                           int(offset)])[0]
                 # Ignore first four bits, FAT32 clusters are
-                # actually just 28bits long
+                # actually just 28bits long; the reserved bits
+                # have to be preserved when writing the FAT back
+                self._fat32_reserved_bits[cluster] = \
+                    self.fat[cluster] & 0xF0000000
                 self.fat[cluster] &= 0x0FFFFFFF
             else:
                 raise PyFATException("Unknown FAT type, cannot continue")
@@ -391,8 +396,13 @@ class PyFat(object):
                 # FAT32
                 fmt = "L"
 
-            b = struct.pack(f"<{fmt * len(self.fat)}",
-                            *self.fat)
+            fat = self.fat
+            if self.fat_type == self.FAT_TYPE_FAT32 and \
+                    len(self._fat32_reserved_bits) == len(fat):
+                # Restore the reserved upper four bits read from disk
+                fat = [e | r for e, r in
+                       zip(fat, self._fat32_reserved_bits)]
+            b = struct.pack(f"<{fmt * len(fat)}", *fat)
         return b
 
     @_init_check
